@@ -277,12 +277,12 @@ func (w *worker[T, JobType]) processNextJob() error {
 		return ErrFailedToCastJob
 	}
 
-	if j.IsClosed() {
+	// a job closed before this point (or at this very moment) is skipped
+	if !j.startProcessing() {
 		return nil
 	}
 
 	w.curProcessing.Add(1)
-	j.changeStatus(processing)
 	j.setAckId(ackId)
 
 	// then job will be process by the processSingleJob function inside spawnWorker
